@@ -381,8 +381,11 @@ fn history(out: &mut Out, r: &mut Rng, cx: &Cx, tag: &str, len: usize) {
                 }
                 // (with a caller-supplied u generator equal states give equal u, and after the modulus switch usually equal c1: by design, not counted)
                 // (the ternary mask u lives in a space of 3^N polynomials: for N < 32 two of a few dozen draws coincide by chance, so u is only
-                // counted as a mask from N = 32 on; c1 = a*u + e1 is counted always)
-                if !explicit { if cx.n >= 32 { h.masks.push(samples[0].data.clone()); } h.masks.push(ct.poly(1).to_vec()); }
+                // counted as a mask from N = 32 on.  c1 = a*u + e1 is NOT more random than u where the public-key encryption goes through the
+                // special-prime division: round((a*u + e1)/P) is a function of u alone except at rounding boundaries (|e1| <= 21 << P), so equal
+                // u give equal c1 — found by a thorough run on the unchanged tree (N = 8, 61 operations: two of ~30 ternary draws coincided).
+                // Both are therefore counted from N = 32 on only; the uniform masks of symmetric encryptions and keys are counted at every N.)
+                if !explicit && cx.n >= 32 { h.masks.push(samples[0].data.clone()); h.masks.push(ct.poly(1).to_vec()); }
                 let probe = if explicit { Some(probe8(&mut g)) } else { None };
                 emit_asym(out, &format!("asym{}-{}", if explicit { "-explicit" } else { "" }, cls), &ent, if explicit { Some((gseed, pre)) } else { None }, used,
                           &samples[0], &samples[1..].iter().collect::<Vec<_>>(), probe);
